@@ -238,7 +238,7 @@ add("c18_mate", ["C18"], "quick", "score(): mate scores lie outside [-11855, 118
     stubs=["game_ending -> harness-chosen verdict (its own contract: c06_ending_*)"], module=EV, est_s=60)
 add("c18_sym_1", ["C18"], "thorough", "board_material_score(b) == -board_material_score(mirror(b)) for two kings + up to 1 further piece (kind, colour, square symbolic)",
     ["board_material_score", "player_material_score", "is_endgame"], "kings on symbolic squares + <=1 symbolic piece", module=EV, unwind=66, est_s=300)
-add("c18_sym_2", ["C18"], "thorough", "board_material_score(b) == -board_material_score(mirror(b)) for two kings + up to 2 further pieces",
+add("c18_sym_2", ["C18"], "experimental", "board_material_score(b) == -board_material_score(mirror(b)) for two kings + up to 2 further pieces",
     ["board_material_score", "player_material_score", "is_endgame"], "kings on symbolic squares + <=2 symbolic pieces", module=EV, unwind=66, est_s=1500, heavy=True)
 for col, cname in [("w", "White"), ("b", "Black")]:
     add(f"c18_side_{col}", ["C18"], "thorough",
@@ -351,7 +351,7 @@ for nm, d in [("knight", "white Ng1-f3 from the starting position"), ("king", "w
     add(f"c01_filter_fixed_{nm}", ["C01"], "thorough",
         f"remove_invalid_moves on a FIXED position and candidate ({d}) with the attack map as the symbolic variable (all 2^64 maps): kept <=> the map misses the mover's king on the successor; map requested once, for the opponent, on the successor; board restored",
         ["remove_invalid_moves", "ChessMove::apply", "ChessMove::undo"], "position and move concrete; attack map symbolic", stubs=[NOSPILL, ATTSTUB, APPENDSTUB], module=MG, est_s=120, native=["attack_targets"])
-add("c01_filter_fixed_promo_pair_b", ["C01"], "quick",
+add("c01_filter_fixed_promo_pair_b", ["C01"], "thorough",
     "remove_invalid_moves on a FIXED position with two capturing promotions onto the same square (black d2xe1, f2xe1; promotion pieces symbolic) and two independent symbolic attack maps: every candidate is tried on the board, each is kept or dropped on its own verdict, order preserved, board restored",
     ["remove_invalid_moves", "PawnPromotionChessMove::apply", "PawnPromotionChessMove::undo"], "position concrete; promotion pieces and both attack maps symbolic",
     stubs=[NOSPILL, ATTSTUB, APPENDSTUB], module=MG, est_s=200, native=["attack_targets"])
@@ -423,9 +423,9 @@ PROPS = {
     ),
     "C11": dict(
         title="Attack geometry tables are exact for every square, occupancy and build", jobs=16, jobs_thorough=8,
-        technique=TECH + "; per-square all-occupancy queries over this build's real magic constants (2^64 occupancies x all mask subsets per square), reference ray walker as oracle",
+        technique=TECH + "; per-square all-occupancy queries over this build's real magic constants (2^64 occupancies x all mask subsets per square), reference ray walker as oracle; plus a bounded loop lemma for make_table decided by z3 over the function's MIR (symbolic executor of the nightly MIR dump, bit-vector queries)",
         level_text="Bounded model checking over the build-generated constants: for each of the 128 (piece, square) pairs the solver shows that for every 64-bit occupancy and every mask subset that shares its slot, the value make_table writes (slider_moves) equals the reference ray walk -- so last-writer-wins cannot hurt and extra pieces elsewhere do not matter; segments are disjoint and in range; slider_moves equals the reference rays for symbolic square and blockers; knight/king tables equal the reference for every square. Each check run sees a fresh draw of the constants (the build script runs inside the Kani build).",
-        level_note="M3 (make_table's loop structure) is checked on small harness-supplied masks only (thorough); the build script's search terminating is outside the claim. Trusted: Kani/CBMC/CaDiCaL, reference rays in verif_ref.rs.",
+        level_note="make_table's fill loop is decided on its MIR by z3 for masks of <= 3 bits (one arbitrary square and entry; slider_moves / magic_index uninterpreted there, their contracts are M1/M2); CBMC cannot get through make_table (measured). The generator crate's own functions (precompile) are not encoded: a changed generator is caught through M1 on the draw it produces, which every run regenerates. The build script's search terminating is outside the claim. Trusted: Kani/CBMC/CaDiCaL, z3 4.8.12, the MIR text parser in lib/mirloop.py, reference rays in verif_ref.rs.",
     ),
     "C06": dict(
         title="Check, checkmate and stalemate verdicts and move annotations are exact", jobs=16,
@@ -434,22 +434,22 @@ PROPS = {
         level_note="Generator entry points are stubbed (arbitrary results, arguments recorded); 'generators that served earlier queries' is C02's reduction. Trusted: Kani/CBMC/CaDiCaL.",
     ),
     "C18": dict(
-        title="Static evaluation is colour-symmetric and always dominated by mate scores", jobs=16, jobs_thorough=6,
+        title="Static evaluation is colour-symmetric and always dominated by mate scores", jobs=16, jobs_thorough=6, timeout_thorough=4500,
         technique=TECH + "; table identity + phase-switch symmetry on fully symbolic boards + bounded-piece equivalence + per-side range with Kani's overflow checks",
         level_text="Bounded model checking split by what the SAT solver can decide: the bonus-table identity that makes evaluation symmetric for any number of pieces, symmetry of the game-phase switch on a fully symbolic board, full score symmetry for kings plus <=1 (quick) / <=2 (thorough) symbolic pieces, per-side range [19000,30600] with no overflow under the legal-material bound incl. nine queens (thorough), the arithmetic consequence that static scores stay strictly inside the mate band, and mate-score monotonicity in remaining depth 0..255 with stalemate = 0.",
         level_note="Symmetry of the summation loop beyond 2 extra pieces rests on the table identity plus additivity of the loop (read, not solved: the monolithic equivalence did not finish in 25 min, measured). Trusted: Kani/CBMC/CaDiCaL.",
     ),
     "C13": dict(
         title="Every legal move gets its standard, unambiguous algebraic notation", jobs=16,
-        technique=TECH + "; kernel-level: disambiguation rule, rival selection and fixed-text selectors on symbolic inputs; final format! assembly read, not executed",
+        technique=TECH + "; kernel-level: disambiguation rule, rival selection and fixed-text selectors on symbolic inputs; the format! assembly (order and origin of the six parts, '=X' suffix) decided by z3 string queries over the functions' MIR (path enumeration of the nightly MIR dump)",
         level_text="Bounded model checking of the SAN kernels: the disambiguator equals the SAN rule for a symbolic piece, move and up to 3 rivals (so two like pieces never get the same label for the same destination), rival selection picks exactly the like-piece same-destination other-origin candidates on a symbolic board, pawn captures carry the file, capture / check / mate / castle texts are selected correctly, and square names are the standard ones for all 64 squares.",
-        level_note="The final format! concatenation of the six parts and the '=Q' suffix builder cannot be executed symbolically (core::fmt with symbolic &str: 18 GB, measured) and are read from the single format! call; uniqueness over whole move lists is derived from C01 + the kernels, not executed. to_algebraic is replaced by a verified stand-in inside the disambiguation harnesses. Trusted: Kani/CBMC/CaDiCaL.",
+        level_note="core::fmt cannot be executed by CBMC (symbolic &str: >10 GB; concrete: no verdict in 50 min), so what chess_move_to_algebraic_notation and get_promotion_chars hand to format! is decided on their MIR: per path, produced text == piece letter ++ disambiguator ++ capture mark ++ destination ++ promotion suffix ++ check suffix (castle: castle text ++ check suffix; promotion: '=' ++ piece letter), callees uninterpreted (their contracts are the CBMC kernels). Uniqueness over whole move lists is derived from C01 + the kernels, not executed. A changed SIGNATURE of a private helper makes its harness file uncompilable: those obligations become inconclusive (exit 2). Trusted: Kani/CBMC/CaDiCaL, z3, lib/mirfmt.py.",
     ),
     "C19": dict(
         title="Coordinate (UCI) move text is standard and survives the Stockfish bridge", jobs=16,
-        technique=TECH + "; square-name function over all 64 inputs + classifier round trip on symbolic boards with the text built from symbolic bytes",
+        technique=TECH + "; square-name function over all 64 inputs + classifier round trip on symbolic boards with the text built from symbolic bytes; to_uci's format! assembly (origin, destination, q/r/b/n per promotion piece) decided by z3 string queries over the function's MIR",
         level_text="Bounded model checking of the two decidable halves: to_algebraic yields the standard lower-case name for every square, and create_chess_move_from_uci, fed the standard text of a symbolic Legalish move of each kind in a fully symbolic invariant-satisfying position with the mover to move, reconstructs exactly that move (kind, squares, capture tag, promotion piece).",
-        level_note="Outside the claim: that ChessMove::to_uci concatenates origin, destination and suffix in that order (one format! call; core::fmt with symbolic &str is not executable in CBMC, measured), the regex inside square_string_to_bitboard (replaced by an arithmetic parser), the Stockfish process. Trusted: Kani/CBMC/CaDiCaL.",
+        level_note="ChessMove::to_uci's text assembly is decided on its MIR (per path: origin ++ destination ++ the letter of that promotion piece; a returning path for each of the four pieces), because core::fmt is not executable in CBMC (measured). Outside the claim: the regex inside square_string_to_bitboard (replaced by an arithmetic parser), the Stockfish process. Trusted: Kani/CBMC/CaDiCaL, z3, lib/mirfmt.py.",
     ),
     "C12": dict(
         title="Board representation invariants hold in every reachable state", jobs=16,
